@@ -410,6 +410,10 @@ func (c01) Eval(t *testing.T, c *Case, dec func(int) *Decider) *Outcome {
 			o.Stats.probe("implicit-commit-without-final-dump")
 		}
 	}
+	if (ending == "exit" || (ending == "fail" && p.ExitCode != 0)) && len(obs.snaps) > len(commitDumps) {
+		o.viol(prop, "all-or-nothing", "commit-on-abnormal-end:"+ending,
+			fmt.Sprintf("the procedure ended by %s (%s) after %d COMMIT statement(s), but %d commits were performed: changes made since the last COMMIT were written", ending, firstLine(p.ErrText), len(commitDumps), len(obs.snaps)))
+	}
 	if lastDump >= 0 && !done[lastDump] {
 		lastDump = -1 // the run ended while printing that dump
 	}
